@@ -62,6 +62,33 @@ def find_sites(ctx):
     return sites
 
 
+def r1_keys(ctx, sites, rule="C26.R1", want_cls=lambda ci: True):
+    """key completeness of the memoised methods of the selected classes; returns the parameters discharged at call sites"""
+    rep = ctx.rep
+    exempt_calls = {}  # (method name) -> params needing call-site proof
+    for s in sites:
+        if not want_cls(s.cls):
+            continue
+        C = f"{s.rel}:{s.cls.qual}.{s.fn.name}"
+        if s.key_names is None:
+            continue
+        params = func_params(s.fn)[1:]
+        body_reads = {n.id for st in s.fn.body for n in ast.walk(st) if isinstance(n, ast.Name) and isinstance(n.ctx, ast.Load)}
+        for p in params:
+            if p in s.key_names:
+                rep.ok(rule, C, f"parameter `{p}` is a key component")
+            elif p not in body_reads:
+                rep.ok(rule, C, f"parameter `{p}` is not in the key and is not read by the body", trivial=True)
+            elif s.fn.name in ("_eval", "_deval") and p in ("N", "N_xi"):
+                exempt_calls.setdefault(s.fn.name, set()).add(p)
+                rep.ok(rule, C, f"parameter `{p}` not in key: discharged at the call sites (basis functions of the keyed xi)")
+            else:
+                rep.bad(rule, C, f"key=... hashkey({', '.join(sorted(s.key_names - {'hashkey', 'self'}))})",
+                        f"parameter `{p}` influences the result but is not part of the cache key: two calls that differ only in `{p}` return the same cached value",
+                        f"{s.rel}:{s.fn.lineno}")
+    return exempt_calls
+
+
 def run(ctx):
     rep = ctx.rep
     rep.rule("C26.R1", "key completeness (parameter liveness vs key; rods: N,N_xi = basis(xi) at every call site)", 40)
@@ -91,25 +118,7 @@ def run(ctx):
             rep.bad("C26.R4", C, f"key=lambda {', '.join(s.key_params)}", f"key lambda parameters {s.key_params} differ from the method's {mp}",
                     f"{s.rel}:{s.fn.lineno}")
     # ---- R1
-    exempt_calls = {}  # (method name) -> params needing call-site proof
-    for s in sites:
-        C = f"{s.rel}:{s.cls.qual}.{s.fn.name}"
-        if s.key_names is None:
-            continue
-        params = func_params(s.fn)[1:]
-        body_reads = {n.id for st in s.fn.body for n in ast.walk(st) if isinstance(n, ast.Name) and isinstance(n.ctx, ast.Load)}
-        for p in params:
-            if p in s.key_names:
-                rep.ok("C26.R1", C, f"parameter `{p}` is a key component")
-            elif p not in body_reads:
-                rep.ok("C26.R1", C, f"parameter `{p}` is not in the key and is not read by the body", trivial=True)
-            elif s.fn.name in ("_eval", "_deval") and p in ("N", "N_xi"):
-                exempt_calls.setdefault(s.fn.name, set()).add(p)
-                rep.ok("C26.R1", C, f"parameter `{p}` not in key: discharged at the call sites (basis functions of the keyed xi)")
-            else:
-                rep.bad("C26.R1", C, f"key=... hashkey({', '.join(sorted(s.key_names - {'hashkey', 'self'}))})",
-                        f"parameter `{p}` influences the result but is not part of the cache key: two calls that differ only in `{p}` return the same cached value",
-                        f"{s.rel}:{s.fn.lineno}")
+    exempt_calls = r1_keys(ctx, sites)
     if exempt_calls:
         r1_callsites(ctx, exempt_calls)
     # ---- R2
